@@ -55,7 +55,7 @@ func genC15(rt *rapid.T) c15Case {
 			}
 		}
 		p.Deadline = rapid.SampledFrom([]time.Duration{0, 500 * time.Millisecond, 3 * time.Second, 10 * time.Second}).Draw(rt, "deadline")
-		p.Reply = rapid.SampledFrom([]string{"echo", "echo", "echo", "withhold", "dup", "foreign", "other", "early"}).Draw(rt, "reply")
+		p.Reply = rapid.SampledFrom([]string{"echo", "echo", "echo", "withhold", "dup", "foreign", "other", "early", "heartbeat"}).Draw(rt, "reply")
 		p.Delay = rapid.SampledFrom([]time.Duration{0, time.Millisecond, 200 * time.Millisecond, time.Second, 4 * time.Second}).Draw(rt, "delay")
 		c.Pings = append(c.Pings, p)
 	}
@@ -136,6 +136,10 @@ func runC15(t fataler, c c15Case) (string, c15Result) {
 			case "other":
 				// the payload of the next pinger's (future) frame, guessed; never this one's
 				sendPong([]byte(fmt.Sprint(len(pl) + 1000)))
+			case "heartbeat":
+				// the peer does not answer; what arrives is its unidirectional heartbeat (RFC 6455 section 5.5.3): a Pong
+				// without application data - the one unsolicited Pong real peers send
+				sendPong(nil)
 			case "withhold":
 			}
 		}
@@ -212,7 +216,7 @@ func runC15(t fataler, c c15Case) (string, c15Result) {
 	}
 	// everything has a bound: the longest deadline is 10 s, the longest reply delay 4 s
 	for i, d := range dones {
-		if c.Pings[i].Deadline == 0 && (c.Pings[i].Reply == "withhold" || c.Pings[i].Reply == "foreign" || c.Pings[i].Reply == "other") && c.CloseAt == 0 {
+		if c.Pings[i].Deadline == 0 && (c.Pings[i].Reply == "withhold" || c.Pings[i].Reply == "heartbeat" || c.Pings[i].Reply == "foreign" || c.Pings[i].Reply == "other") && c.CloseAt == 0 {
 			continue // waits forever by contract; ended by teardown
 		}
 		if !within(d, 30*time.Second) {
